@@ -16,6 +16,45 @@ use std::path::Path;
 pub struct ParCase {
     pub g: GraphCase,
     pub sel: u64,
+    /// when set, `g` is ignored and a sparse graph with this many nodes (61..=1200) is generated
+    /// procedurally from `sel` (sizes above any plausible internal threshold)
+    #[serde(default)]
+    pub big_n: Option<u16>,
+}
+
+/// procedurally generated sparse graph: ring + 2 pseudo-random chords per node, non-dyadic weights
+fn big_graph(n: usize, seed: u64, directed: bool, weighted: bool) -> crate::model::G {
+    use crate::model::{mk_edge, mk_node, SpecBits, G};
+    let mut g = G::new(SpecBits::kind(directed, false, false).to_specs());
+    for i in 0..n {
+        g.add_node(mk_node(&node_name_big(i), None));
+    }
+    let mut s = seed | 1;
+    let mut seen = std::collections::HashSet::new();
+    let mut add = |g: &mut G, a: usize, b: usize, s: u64| {
+        if a == b {
+            return;
+        }
+        let key = if !directed && a > b { (b, a) } else { (a, b) };
+        if !seen.insert(key) {
+            return;
+        }
+        let w = if weighted { 0.1 + ((s >> 20) % 50) as f64 * 0.137 } else { f64::NAN };
+        g.add_edge(mk_edge(&node_name_big(a), &node_name_big(b), w)).expect("edge");
+    };
+    for i in 0..n {
+        s = mix(s, i as u64);
+        add(&mut g, i, (i + 1) % n, s);
+        for _ in 0..2 {
+            s = mix(s, 0x77);
+            add(&mut g, i, (s % n as u64) as usize, s);
+        }
+    }
+    g
+}
+
+fn node_name_big(i: usize) -> String {
+    format!("v{:04}", (i * 7919 + 13) % 10007)
 }
 
 pub struct C07 {
@@ -58,6 +97,10 @@ fn run_all(graph: &crate::model::G, weighted: bool, sources: &[String], node: &s
         out.push(("all_pairs_distances_only", dijkstra::all_pairs(graph, weighted, None, None, false, false).map(|m| canon_pairs(&m)).unwrap_or_else(|e| format!("Err {:?}", e.kind))));
         out.push(("multi_source", dijkstra::multi_source(graph, weighted, sources.to_vec(), None, None, false, true).map(|m| canon_pairs(&m)).unwrap_or_else(|e| format!("Err {:?}", e.kind))));
         out.push(("get_all_shortest_paths_involving", canon_involving(&dijkstra::get_all_shortest_paths_involving(graph, node.to_string(), weighted))));
+        // the option-carrying variants take the full algorithm instead of the distance-only one
+        out.push(("all_pairs_with_target", dijkstra::all_pairs(graph, weighted, Some(node.to_string()), None, false, true).map(|m| canon_pairs(&m)).unwrap_or_else(|e| format!("Err {:?}", e.kind))));
+        out.push(("all_pairs_with_cutoff_first_only", dijkstra::all_pairs(graph, weighted, None, Some(2.5), true, true).map(|m| canon_pairs(&m)).unwrap_or_else(|e| format!("Err {:?}", e.kind))));
+        out.push(("multi_source_with_target_no_paths", dijkstra::multi_source(graph, weighted, sources.to_vec(), Some(node.to_string()), None, false, false).map(|m| canon_pairs(&m)).unwrap_or_else(|e| format!("Err {:?}", e.kind))));
         for norm in [false, true] {
             out.push((if norm { "betweenness_centrality_normalized" } else { "betweenness_centrality" }, betweenness_centrality(graph, weighted, norm).map(|m| canon_map(&m)).unwrap_or_else(|e| format!("Err {:?}", e.kind))));
         }
@@ -77,13 +120,57 @@ fn busy(us: u64) {
     }
 }
 
+impl C07 {
+    /// large graphs: the centralities and distance-only all_pairs (the path-carrying variants would
+    /// need gigabytes), pools of 2, 5 and 16 threads against the serial result
+    fn check_big(&self, case: &ParCase, n: usize) -> Outcome {
+        let mut out = Outcome::new();
+        let directed = case.g.kind & 1 == 1;
+        let weighted = case.g.wmode == 4;
+        let graph = big_graph(n, case.sel, directed, weighted);
+        let run = |g: &crate::model::G| -> Result<Vec<(&'static str, String)>, String> {
+            guard(|| {
+                let mut v = vec![];
+                v.push(("betweenness_centrality", betweenness_centrality(g, weighted, true).map(|m| canon_map(&m)).unwrap_or_else(|e| format!("Err {:?}", e.kind))));
+                v.push(("closeness_centrality", closeness_centrality(g, weighted, true).map(|m| canon_map(&m)).unwrap_or_else(|e| format!("Err {:?}", e.kind))));
+                v.push(("all_pairs_distances_only", dijkstra::all_pairs(g, weighted, None, None, false, false).map(|m| canon_pairs(&m)).unwrap_or_else(|e| format!("Err {:?}", e.kind))));
+                v
+            })
+        };
+        let reference = match pool_of(1).install(|| run(&graph)) {
+            Ok(r) => r,
+            Err(p) => {
+                out.fail(format!("serial/panic/{}", panic_class(&p)), p);
+                return out;
+            }
+        };
+        for threads in [2usize, 5, 16] {
+            match pool_of(threads).install(|| run(&graph)) {
+                Err(p) => out.fail(format!("parallel/panic/{}", panic_class(&p)), p),
+                Ok(got) => {
+                    out.api_calls += got.len() as u64;
+                    for ((name, a), (_, b)) in reference.iter().zip(got.iter()) {
+                        if a != b {
+                            out.fail(format!("{}/differs_from_serial/large_graph", name), format!("n = {}, pool of {} threads", n, threads));
+                        }
+                    }
+                }
+            }
+        }
+        out.class("large_graph_61_to_1200_nodes");
+        out.class(format!("large_graph_n_above_{}", if n > 512 { 512 } else if n > 256 { 256 } else if n > 128 { 128 } else { 60 }));
+        out.nontrivial = true;
+        out
+    }
+}
+
 impl Prop for C07 {
     type Case = ParCase;
     fn id(&self) -> &'static str {
         "C07"
     }
     fn rule(&self) -> String {
-        "graphs of all 8 kinds with 21..=60 nodes (random, tie-rich shapes, unweighted / tie-rich / non-dyadic weights so that the order of floating-point additions would matter). For every graph the five functions (all_pairs with and without paths, multi_source on a generated subset, get_all_shortest_paths_involving, betweenness raw/normalized, closeness with/without WF) run inside rayon pools of every size 1..=16 entered with install (size 1 takes the serial path and is the reference), each size repeated 2 (quick) / 6 (thorough) times, half of the repetitions with perturbing load (busy tasks spawned into the same pool; the harness itself runs 16 cases at a time on shared pools, which shifts work stealing further); plus 6 scoped threads calling the functions on one &Graph at the same time. Oracle: differential — identical key sets, f64::to_bits equality of every distance and centrality, identical path lists including their order. Non-trivial = n > 20 and the serial result contains a non-integer value or a pair with >= 2 paths; distinct = distinct serialised case.".into()
+        "graphs of all 8 kinds with 21..=60 nodes (plus, one case in 13, a procedurally generated sparse graph with a log-uniform size in 61..=1200 on which the centralities and distance-only all_pairs run in pools of 2, 5 and 16 threads) (random, tie-rich shapes, unweighted / tie-rich / non-dyadic weights so that the order of floating-point additions would matter). For every graph the five functions (all_pairs with and without paths, multi_source on a generated subset, get_all_shortest_paths_involving, all_pairs / multi_source with target, cutoff and first_only, betweenness raw/normalized, closeness with/without WF) run inside rayon pools of every size 1..=16 entered with install (size 1 takes the serial path and is the reference), each size repeated 2 (quick) / 6 (thorough) times, half of the repetitions with perturbing load (busy tasks spawned into the same pool; the harness itself runs 16 cases at a time on shared pools, which shifts work stealing further); plus 6 scoped threads calling the functions on one &Graph at the same time. Oracle: differential — identical key sets, f64::to_bits equality of every distance and centrality, identical path lists including their order. Non-trivial = n > 20 and the serial result contains a non-integer value or a pair with >= 2 paths; distinct = distinct serialised case.".into()
     }
     fn assumptions(&self) -> Vec<String> {
         vec![
@@ -98,7 +185,13 @@ impl Prop for C07 {
         fn me(n: usize) -> usize {
             n * 2
         }
-        (graph_strategy(&ALL_KINDS, 21, 60, me, &[0, 3, 4, 4], 4), any::<u64>()).prop_map(|(g, sel)| ParCase { g, sel }).boxed()
+        let normal = (graph_strategy(&ALL_KINDS, 21, 60, me, &[0, 3, 4, 4], 4), any::<u64>()).prop_map(|(g, sel)| ParCase { g, sel, big_n: None });
+        // log-uniform sizes 61..=1200
+        let big = (0u16..1000, any::<u64>(), 0u8..4).prop_map(|(r, sel, k)| {
+            let n = (61.0 * (1200.0f64 / 61.0).powf(r as f64 / 999.0)).round() as u16;
+            ParCase { g: GraphCase { kind: k & 1, n: 0, perm: 0, shape: 0, edges: vec![], wmode: if k & 2 == 2 { 4 } else { 0 } }, sel, big_n: Some(n) }
+        });
+        prop_oneof![12 => normal, 1 => big].boxed()
     }
     fn random_cases(&self, tier: Tier) -> u32 {
         tier.pick(160, 2_400)
@@ -130,6 +223,9 @@ impl Prop for C07 {
     }
     fn check(&self, case: &ParCase) -> Outcome {
         let mut out = Outcome::new();
+        if let Some(bn) = case.big_n {
+            return self.check_big(case, bn as usize);
+        }
         let ng = case.g.norm();
         let graph = ng.build();
         let n = ng.n;
